@@ -23,7 +23,7 @@ BagAdd(b, x) == IF x \in DOMAIN b THEN [b EXCEPT ![x] = @ + 1] ELSE [y \in DOMAI
 BagCount(b, x) == IF x \in DOMAIN b THEN b[x] ELSE 0
 BagSub(b, x) == [b EXCEPT ![x] = @ - 1]
 
-Init == /\ l = 1 /\ meta = [id |-> 0, mode |-> "sync", snapshot |-> FALSE]
+Init == /\ l = 1 /\ meta = [id |-> 0, mode |-> "sync", snapshot |-> FALSE, restart |-> FALSE]
         /\ pend = [s \in Sites |-> EmptyBag] /\ done = [s \in Sites |-> EmptyBag] /\ own = [s \in Sites |-> {}]
 IsEvent(e) == l <= Len(Trace) /\ Trace[l].ev = e /\ l' = l + 1
 Report(bad) == IF bad = {} THEN TRUE ELSE PrintT(<<"VIOL", meta.id, l, bad>>)
@@ -54,7 +54,9 @@ Applied ==
          origin == IF biz = {} \/ snap THEN {}
                    ELSE IF owed THEN {}
                    ELSE IF r.dataSite = s \/ content \in own[s] THEN {"C13_Echo"}
-                   ELSE IF BagCount(done[s], content) > 0 THEN {"C13_AppliedTwice"}
+                   \* "exactly once" is promised absent restarts; a restarted pipeline / parallel link may repeat units behind its
+                   \* frontier (C14), a sync link resumes exactly (so it still may not) - an echo is never excused
+                   ELSE IF BagCount(done[s], content) > 0 THEN (IF meta.restart /\ meta.mode # "sync" THEN {} ELSE {"C13_AppliedTwice"})
                    ELSE {"C13_UnknownUnit"}
      IN /\ Report(shape \cup origin)
         /\ IF biz # {} /\ ~snap /\ owed
@@ -67,7 +69,7 @@ End ==
   /\ LET r == Trace[l] IN
      Report((IF \E s \in Sites : \E c \in DOMAIN pend[s] : pend[s][c] > 0 THEN {"C13_Swallowed"} ELSE {})
             \cup (IF ~r.quiet THEN {"C13_NoQuiescence"} ELSE {})
-            \cup (IF Len(r.diff) > 0 THEN {"C13_SitesDiffer"} ELSE {})
+            \cup (IF Len(r.diff) > 0 /\ ~(meta.restart /\ meta.mode # "sync") THEN {"C13_SitesDiffer"} ELSE {})
             \cup (IF \E i \in 1..2 : Len(r.foreignBookkeeping[i]) > 0 THEN {"C13_BookkeepingForwarded"} ELSE {})
             \cup (IF \E i \in 1..2 : r.linkErr[i] # "" \/ r.startErr[i] # "" \/ r.rdbErr[i] # "<nil>" THEN {"C13_LinkStopped"} ELSE {}))
   /\ UNCHANGED <<meta, pend, done, own>>
